@@ -42,6 +42,7 @@ var c10ClaimSets = []c10claims{
 	{"[a.]", []string{"a."}},
 	{"[a*]", []string{"a*"}},
 	{"['']", []string{""}},
+	{"[' ' '']", []string{" ", ""}},
 }
 
 func (c c10claims) permits(ep string) bool {
